@@ -24,7 +24,7 @@ EXPLANATION = (
     ' Round 4: (7) the space a relative size is a percentage of is clamped to >= 0 before scaling, in both placement helpers; (8) memo vs child queries (C06.7); (9) Overlay measures a flow top widget at the width top_w_size() renders it with (roles matched through the caller). Round 5: (2, extended) the share stored into the result is the share taken off the remainder; (10) no size expression counts one margin of a pair twice and its partner not at all.'
     ' Round 6: (11) an override of the bottom margin in Overlay.calculate_padding_filler keeps top + height + bottom == maxrow or is made exactly under height > maxrow; (12) Columns.column_widths reserves, credits back and floors weighted columns with one and the same amount.'
     ' (13) GUARD: a division by a total of weights is made only where that total was tested against 0 (fix 8b4fc37: zero weights only).'
-    ' Round 7: (14) PAIR: padding is moved from one side to the other only where the tests show the giving side positive and the receiving side negative (both mirror branches of the helpers); (15) FLAG-FWD: a self-call to a helper taking `focus` passes the method\'s own focus flag, not a per-item flag.'
+    ' Round 7: (14) PAIR: padding is moved from one side to the other only where the tests show the giving side positive and the receiving side negative (both mirror branches of the helpers); (15) FLAG-FWD: a self-call to a helper taking `focus` passes the method\'s own focus flag, not a per-item flag; (16) SIB: every relative width is a share of the columns net of the left / right margins - Overlay.rows() like calculate_left_right_padding() (fix 8affa45).'
 )
 NOT_DECIDED = "Non-negativity of every child dimension, proportionality within one column, focus-column visibility, min-width interaction beyond the ordering clause, alignment rounding - integer-rounding properties over ranges."
 ASSUMPTIONS = []
@@ -557,6 +557,51 @@ def rule_reduce_padding_mirror(ctx: Ctx) -> RuleResult:
     return rr
 
 
+def rule_share_net_of_margins(ctx: Ctx) -> RuleResult:
+    """A relative width is a share of the columns the fixed left / right margins leave: calculate_left_right_padding
+    (what the rendering uses) computes `max(maxcol - left - right, 0) * width_amount / 100`.  Every other place in
+    the widget layer that turns a relative width into columns (Overlay.rows for a flow Overlay: the width the top
+    widget's rows are asked for) has to start from the same net quantity - the multiplicand of `* width_amount / 100`
+    expands to something that subtracts a left and a right margin.  Before fix 8affa45 Overlay.rows() used the full
+    size[0]: rows() said 2 where the rendering (12 columns narrower) needed 4."""
+    p = ctx.p
+    rr = RuleResult("SIB", "C19.16", "every conversion of a relative width into columns (x * width_amount / 100) starts from the columns net of the left and right margins", floor=2)
+    for fi in p.functions.values():
+        if not fi.module.name.startswith("urwid.widget") or fi.is_lambda:
+            continue
+        du = None
+        for b in fi.own_nodes():
+            if not (isinstance(b, ast.BinOp) and isinstance(b.op, ast.Div) and isinstance(b.right, ast.Constant) and b.right.value == 100 and isinstance(b.left, ast.BinOp) and isinstance(b.left.op, ast.Mult)):
+                continue
+            amt = [x for x in (b.left.left, b.left.right) if "width_amount" in ast.unparse(x)]
+            if len(amt) != 1:
+                continue
+            base = b.left.right if amt[0] is b.left.left else b.left.left
+            du = du or DefUse(fi)
+            at = next((c for c in du.cfg.nodes for e in node_exprs(c) for x in walk_no_nested(e) if x is b), None)
+            ex = du.expand(base, at) if at is not None else base
+            cands = [a for a in ex.args if not isinstance(a, ast.Constant)] if isinstance(ex, ast.Call) and callee_name(ex) == "max" else [ex]
+            net = False
+            for c in cands:
+                # `self.left or 0` spells a margin that may be None: read through the `or 0`
+                class _Strip(ast.NodeTransformer):
+                    def visit_BoolOp(self, node):
+                        self.generic_visit(node)
+                        if isinstance(node.op, ast.Or) and len(node.values) == 2 and isinstance(node.values[1], ast.Constant) and node.values[1].value == 0:
+                            return node.values[0]
+                        return node
+
+                import copy
+
+                L = linear(_Strip().visit(copy.deepcopy(c)))
+                if L and any(k.split(".")[-1] == "left" and v == -1 for k, v in L.items()) and any(k.split(".")[-1] == "right" and v == -1 for k, v in L.items()):
+                    net = True
+            rr.inst(f"{short(fi)}: {norm(b, 50)}", True, {"site": f"{short(fi)}: {norm(b, 60)}", "share_of": norm(ex, 70), "net_of_left_and_right": net})
+            if not net:
+                rr.add(finding("SIB", fi, b, f"`{norm(b, 60)}` takes the relative width from `{norm(ex, 50)}`, the rendering (calculate_left_right_padding) from the columns the left and right margins leave: with fixed margins this method works with a wider child than the one drawn - a flow Overlay reports fewer rows than its top widget needs", construct=f"relative width taken from {norm(ex, 40)}, not net of the margins"))
+    return rr
+
+
 def run(ctx: Ctx):
     p = ctx.p
     return [
@@ -577,6 +622,7 @@ def run(ctx: Ctx):
         rule_weight_total_nonzero(ctx),
         rule_reduce_padding_mirror(ctx),
         fwd.run_self_fwd(p, "C19.15", ("urwid.widget",), floor=10),
+        rule_share_net_of_margins(ctx),
     ]
 
 
@@ -586,6 +632,8 @@ _PD = "urwid/widget/padding.py"
 _FL = "urwid/widget/filler.py"
 _G = "urwid/widget/grid_flow.py"
 MUTANTS = [
+    Mut("overlay-rows-relative-of-full-width", "urwid/widget/overlay.py", "Overlay.rows", "                width = max(int(maxwidth * self.width_amount / 100 + 0.5), (self.min_width or 0))", "                width = max(int(size[0] * self.width_amount / 100 + 0.5), (self.min_width or 0))", "SIB|widget.overlay.Overlay.rows|relative width taken from size[0], not net of the margins"),
+    Mut("twin-overlay-rows-relative-inline", "urwid/widget/overlay.py", "Overlay.rows", "                width = max(int(maxwidth * self.width_amount / 100 + 0.5), (self.min_width or 0))", "                width = max(int(max(0, size[0] - (self.right or 0) - (self.left or 0)) * self.width_amount / 100 + 0.5), (self.min_width or 0))", twin=True),
     Mut("pile-rows-with-item-focus", "urwid/widget/pile.py", "Pile.get_rows_sizes", "item_rows = self.get_item_rows(size, focus)", "item_rows = self.get_item_rows(size, item_focus)", "FLAG-FWD|widget.pile.Pile.get_rows_sizes|self-call passes item_focus as focus"),
     Mut("padding-reduce-branches-merged", "urwid/widget/padding.py", "calculate_left_right_padding", "    if right < 0 < left:\n        shift = min(left, -right)\n        left -= shift\n        right += shift\n    elif left < 0 < right:\n        shift = min(right, -left)\n        right -= shift\n        left += shift\n", "    if right < 0 < left or left < 0 < right:\n        shift = min(abs(left), abs(right))\n        left -= shift\n        right += shift\n", "PAIR|widget.padding.calculate_left_right_padding|padding moved from left to right without left > 0 > right"),
     Mut("columns-divide-by-zero-weight-total", "urwid/widget/columns.py", "Columns.column_widths", "width = max(int(grow * weight / wtotal + 0.5) if wtotal else 0, self.min_width)", "width = max(int(grow * weight / wtotal + 0.5), self.min_width)", "GUARD|widget.columns.Columns.column_widths|division by untested weight total wtotal"),
